@@ -559,5 +559,14 @@ example : ∃ c ∈ exApp.children,
   refine ⟨_, List.mem_cons_self, fun h => h 2 [] ⟨by decide +kernel, ?_⟩⟩
   intro g hg; cases hg
 
+/-- literal text after a dynamic segment is compared literally (`ResourceDef::parse` escapes it) and
+the segment gives characters back until it matches: `/{name}.j` on `/a.b.j`, `/a-j`, `/a/j` -/
+example :
+    miniMatch [[.lit ['/'], .var "name", .lit ['.', 'j']]] false ['/', 'a', '.', 'b', '.', 'j'] =
+      some (6, [("name", 1, 4)]) ∧
+    miniMatch [[.lit ['/'], .var "name", .lit ['.', 'j']]] false ['/', 'a', '-', 'j'] = none ∧
+    miniMatch [[.lit ['/'], .var "name", .lit ['.', 'j']]] false ['/', 'a', '/', 'j'] = none := by
+  decide +kernel
+
 end Examples
 end ActixModel.Route.C09
